@@ -11,8 +11,8 @@ import (
 
 func init() {
 	register(&PropMeta{
-		ID:    "C02",
-		Level: "other",
+		ID:          "C02",
+		Level:       "other",
 		Explanation: "Decides that the id → hand index → player index translation is carried unchanged through the whole hand: (R1) the hand's player settings are appended once per entry of the hand index list, in order, and the only later change is a dealer label on entry 0; (R2) in each of the 9 action methods the index given to the hand engine is FindGamePlayerIdx(own id), every statistics store and the published action use FindPlayerIndexFromGamePlayerIndex(that same index), and the published id is the caller's own; (R3) settlement maps result r to PlayerStates[GamePlayerIndexes[r.Idx]] (as C01.R2); (R4) the hand index list is written only as empty, as the list builder's result on the clone, or as the remap after a leave, and every element the builder appends is read from the seat map at i mod N inside a full-circle loop i = s … s+N-1 with the same N, under the dealt-in flag; (R5) the two translators have their defining shapes; (R6) joins append to the player list and patch a copy of the seat map only at the new seats. NOT decided: that scan order equals clockwise order numerically for every fake-dealer computation; what pokerface does with entry i.",
 		Rules: map[string]string{
 			"R1": "hand list construction: one PlayerSetting per hand-index entry, in order; only later mutation is the dealer label on entry 0",
@@ -242,6 +242,12 @@ func checkC02(c *Ctx) {
 		c.Min("R4", "appends in the list builder", n, 3)
 	}
 
+	// remap after a leave: indexes recorded for the remaining players are positions in the NEW list
+	checkLeaveRemap(c)
+
+	// seat scans of the engine: counters past one circle only modulo the seat count
+	checkWrapCounters(c, "R4", func(f *ssa.Function) bool { return inPkg(p, f, "") }, 4)
+
 	// ---------------- R5
 	checkTranslators(c)
 
@@ -441,4 +447,99 @@ func checkTranslators(c *Ctx) {
 		}
 	}
 	c.Check(ok && n >= 1, "R5", "FindPlayerIndexFromGamePlayerIndex", p.Pos(fp.Pos()), "GamePlayerIndexes[arg] or unset", d)
+}
+
+// checkLeaveRemap (C02.R4): in the leave computation, every id→index map entry and every
+// seat-map entry is written as (X.PlayerID | X.Seat) ↦ i with X = L[i], i ranging over the
+// whole of L, where L is the player list the function returns; and every element appended
+// to the returned hand index list is a lookup in such an id→index map.
+func checkLeaveRemap(c *Ctx) {
+	p := c.P
+	var leave *ssa.Function
+	for _, f := range p.Funcs {
+		for _, ci := range Calls(f) {
+			if calleeName(ci.Common()) != "SeatManager.RemoveSeats" {
+				continue
+			}
+			for _, c2 := range Calls(f) {
+				if sc := c2.Common().StaticCallee(); sc != nil && p.IsRepoFunc(sc) && sc.Signature.Results().Len() == 3 {
+					leave = sc
+				}
+			}
+		}
+	}
+	if leave == nil {
+		c.Bad("R4", "leave-remap", "-", "leave computation not found")
+		return
+	}
+	var newList string
+	for _, b := range leave.Blocks {
+		for _, in := range b.Instrs {
+			if r, ok := in.(*ssa.Return); ok {
+				newList = p.Sym(r.Results[0]).Strip().String()
+			}
+		}
+	}
+	n := 0
+	idMaps := map[ssa.Value]bool{}
+	for _, b := range leave.Blocks {
+		for _, in := range b.Instrs {
+			var key, val *Sym
+			var isIDMap bool
+			var mapV ssa.Value
+			switch x := in.(type) {
+			case *ssa.MapUpdate:
+				if typeShort(x.Map.Type()) != "map[string]int" {
+					continue
+				}
+				key, val, isIDMap, mapV = p.Sym(x.Key).Strip(), p.Sym(x.Value).Strip(), true, x.Map
+			case *ssa.Store:
+				a := p.Sym(x.Addr).Strip()
+				if a.Kind != "index" || typeShort(x.Val.Type()) != "int" || !a.Args[1].Strip().IsField("TablePlayerState", "Seat") {
+					continue
+				}
+				key, val = a.Args[1].Strip(), p.Sym(x.Val).Strip()
+			default:
+				continue
+			}
+			if key.Kind != "field" || key.Owner != "TablePlayerState" {
+				continue
+			}
+			n++
+			pl := key.Args[0].Strip()
+			ok := pl.Kind == "index" && pl.Args[1].Strip().String() == val.String() && val.Kind == "ind" &&
+				fullRange(val, func(x *Sym) bool { return x.String() == pl.Args[0].Strip().String() }) && pl.Args[0].Strip().String() == newList
+			d := ""
+			if !ok {
+				d = fmt.Sprintf("after a leave, %s of a remaining player is mapped to %s, which is not that player's position in the new player list", key.Name, val)
+			}
+			c.Check(ok, "R4", "leave-remap:"+key.Name, p.InstrPos(in), key.Name+" ↦ position in the new player list", d)
+			if ok && isIDMap {
+				idMaps[mapV] = true
+			}
+		}
+	}
+	c.Min("R4", "remap entries in the leave computation", n, 2)
+	// the rebuilt hand index list takes its elements from such a map
+	na := 0
+	for _, ci := range Calls(leave) {
+		cs := p.CallSym(ci)
+		if cs.Kind != "builtin" || cs.Name != "append" || !isIntSlice(ci.Common().Args[0]) {
+			continue
+		}
+		e := appendedElem(p, ci)
+		if e == nil {
+			continue
+		}
+		na++
+		ok := false
+		es := e.Strip()
+		if es.Kind == "extract" && es.Args[0].Strip().Kind == "lookup" {
+			if lk, isLk := es.Args[0].Strip().V.(*ssa.Lookup); isLk && idMaps[lk.X] {
+				ok = true
+			}
+		}
+		c.Check(ok, "R4", "leave-remap:hand-index-source", p.InstrPos(ci), "new hand index = new position of the same player id", "after a leave the hand index list is rebuilt from "+es.String()+", not from the id → new position map")
+	}
+	c.Min("R4", "appends to the remapped hand index list", na, 1)
 }
